@@ -4,7 +4,7 @@
     cols detproj parent=<P> deps=<D> extra=<cols>          → one:c | many:a,b
     cols plain   frame=<cols> parent=<P> deps=<D> extra=…  → NONE | child=…;child2=…;keep=…;collapse=…
     cols rule <rule> …                                      → same
-    cols projdown / drop / gbdown / mergelabels / concatcols
+    cols projdown / drop / gbdown / mergelabels / concatcols / concatlabels (Concat.columns) / assignlabels (Assign.columns)
 
   <cols> = a,b,c | -           <P> = L:a,b | S:a | I          <D> = a,b:0/c:1 | -   (cols:ndim1 per dependent)
   an optional list is `*` when absent.
@@ -202,6 +202,16 @@ def handle : List String → Option String
       | some l, some r, some lo, some ro, some ls, some rs =>
           some (rCols (mergeLabels ⟨lo, ro, pStr ls, pStr rs⟩ l r))
       | _, _, _, _, _, _ => some "BAD params"
+  | "cols" :: "assignlabels" :: rest =>
+      let kv := kvs rest
+      match gc kv "frame", gc kv "keys" with
+      | some f, some k => some (rCols (assignLabels f k))
+      | _, _ => some "BAD params"
+  | "cols" :: "concatlabels" :: rest =>
+      let kv := kvs rest
+      match getBool kv "axis1", getBool kv "inner", get kv "frames" with
+      | some a, some i, some fs => some (rCols (concatLabels a i ((fs.splitOn "/").map pCols)))
+      | _, _, _ => some "BAD params"
   | "cols" :: "concatcols" :: rest =>
       let kv := kvs rest
       match getBool kv "axis1", getBool kv "inner", get kv "frames" with
